@@ -548,8 +548,12 @@ func (ev *cenv) sel(e *CExpr) *Val {
 			sh := E.shape(T)
 			if idx, path, ok := findField(E, T, e.Name); ok {
 				_ = idx
-				n := &LVal{Kind: lv.Kind, Cell: lv.Cell, Ref: lv.Ref, Idx: lv.Idx, Root: lv.Root, Global: lv.Global}
+				n := &LVal{Kind: lv.Kind, Cell: lv.Cell, Ref: lv.Ref, Idx: lv.Idx, Root: lv.Root, Global: lv.Global, VarCell: lv.VarCell}
 				n.Path = append(append([]pathStep{}, lv.Path...), path...)
+				if at, isArr := types.Unalias(E.lvType(n)).Underlying().(*types.Array); isArr && at.Len() > 16 {
+					// large inline array: a location, indexable in contracts
+					return &Val{T: E.lvType(n), LV: n}
+				}
 				r := ev.loadLV(n)
 				return r
 			}
@@ -656,6 +660,10 @@ func (ev *cenv) index(e *CExpr) *Val {
 			return &Val{T: types.Typ[types.Uint8], S: sx(fSat, base.S, idx.S), Sort: SInt}
 		}
 	case *types.Array:
+		if base.F == nil && base.LV != nil && t.Len() > 16 {
+			ref := E.arrayElemRef(base.LV, idx.S)
+			return ev.loadLV(&LVal{Kind: lvHeap, Ref: ref, Root: t.Elem()})
+		}
 		if base.F != nil {
 			step := pathStep{IsArr: true}
 			if c, ok := isConstTerm(idx.S); ok {
@@ -751,6 +759,9 @@ func (ev *cenv) call(e *CExpr) *Val {
 				return x.F[2]
 			}
 			if _, ok := types.Unalias(x.T).Underlying().(*types.Map); ok {
+				if ev.st != nil && len(ev.bound) == 0 {
+					ev.st.assume(E.cardEmptyFact(ev.heap, x), sx(">=", E.mapCardH(ev.heap, x), "0"))
+				}
 				return intVal(E.mapCardH(ev.heap, x))
 			}
 			ev.fail("len of %s", args[0].String())
@@ -822,6 +833,30 @@ func (ev *cenv) call(e *CExpr) *Val {
 				return evs[k].Res.F[ev.constInt(args[2])]
 			}
 			return evs[k].Res
+		case "visited":
+			// visited(L, k): key k was already yielded by the map range of loop L
+			l := ev.constInt(args[0])
+			k := ev.eval(args[1])
+			if ev.st == nil {
+				ev.fail("visited() needs a state")
+			}
+			id := ev.st.ghost["loopiter:"+fmt.Sprint(l)]
+			if id == "" {
+				// the loop has not been entered yet on this path: nothing visited
+				return boolVal("false")
+			}
+			it := E.iters[id]
+			return boolVal(sx("select", E.ghostVisited(ev.st, id, it), k.S))
+		case "atlock":
+			// the state right after the most recent lock acquisition on this path
+			if ev.st == nil || ev.st.ghost["lastsnap"] == "" {
+				ev.fail("atlock(): no lock was acquired on this path")
+			}
+			var n int
+			fmt.Sscanf(ev.st.ghost["lastsnap"], "%d", &n)
+			sub := *ev
+			sub.heap = E.snaps[n]
+			return sub.eval(args[0])
 		case "sameElems":
 			// every element in the slice's window [off, off+cap) of its backing array is as in the pre-state
 			x := ev.eval(args[0])
@@ -903,6 +938,22 @@ func (ev *cenv) call(e *CExpr) *Val {
 				vs = append(vs, ev.eval(a))
 			}
 			return ev.applySpecFunc(sf, vs)
+		}
+	}
+	if fn.Op == "sel" && len(args) == 0 {
+		// x.M() for a method with a `pure` interface contract (e.g. key.Sum())
+		recv := ev.eval(fn.Args[0])
+		for k, sp := range E.CS.Funcs {
+			if sp.IsIface && sp.Pure && strings.HasSuffix(k, "."+fn.Name) {
+				name := qsym("fn:" + k + "#0")
+				var sorts, terms []string
+				for _, l := range leaves(recv) {
+					sorts = append(sorts, l.Sort)
+					terms = append(terms, l.S)
+				}
+				E.declare(name, "("+strings.Join(sorts, " ")+") Int")
+				return intVal(sx(name, terms...))
+			}
 		}
 	}
 	ev.fail("unknown function in contract: %s", e.String())
@@ -1058,6 +1109,9 @@ func (ev *cenv) evalLV(e *CExpr) *LVal {
 		if sl, ok := types.Unalias(base.T).Underlying().(*types.Slice); ok {
 			return &LVal{Kind: lvElem, Ref: base.F[0].S, Idx: E.at(base.F[1].S, idx.S), Root: sl.Elem()}
 		}
+		if at, ok := types.Unalias(base.T).Underlying().(*types.Array); ok && base.F == nil && base.LV != nil {
+			return &LVal{Kind: lvHeap, Ref: E.arrayElemRef(base.LV, idx.S), Root: at.Elem()}
+		}
 	case "ident":
 		v := ev.lookupIdent("&" + e.Name)
 		if v != nil && v.LV != nil {
@@ -1115,7 +1169,7 @@ func usesCallLog(e *CExpr) bool {
 	}
 	if e.Op == "call" && e.Args[0].Op == "ident" {
 		switch e.Args[0].Name {
-		case "calls", "arg", "ret", "atcall", "aftercall":
+		case "calls", "arg", "ret", "atcall", "aftercall", "callpos", "atlock", "visited":
 			return true
 		}
 	}
